@@ -1129,6 +1129,9 @@ func (db *ContractDB) Validate() error {
 			}
 			for _, p := range ps {
 				if o, dup := seen[p]; dup {
+					if c.Trusted && o.Trusted {
+						continue // two library specs of one function: the first (by file order) is used
+					}
 					return fmt.Errorf("%s:%d: duplicate contract for %s serving property %q (first at %s:%d)", c.File, c.Line, key, p, o.File, o.Line)
 				}
 				seen[p] = c
